@@ -500,11 +500,13 @@ def hostile_ods_documents(report):
         return marked.replace("MARK", "<text:span>" * depth + "b" + "</text:span>" * depth)
 
     cases = []
-    for count in ("1000000000000000000", "99999999999999999999", "2147483648", "4294967296"):
-        cases.append(("table:number-columns-repeated=%s on a cell with text" % count, odslib.content_xml([good], column_attribute=count)))
-        cases.append(("table:number-columns-repeated=%s on an empty cell" % count, odslib.content_xml([empty_first], column_attribute=count)))
-        blanks = [{"rep": 1, "cells": [{"rep": 1, "paras": [[{"k": "s", "cs": [], "n": int(count), "sub": []}]]}]}]
-        cases.append(("text:s with text:c=%s" % count, odslib.content_xml([blanks])))
+    for count in ("1000000000000000000", "99999999999999999999", "2147483648", "4294967296", "9" * 4300, "1" + "0" * 4300, "9" * 20000,
+                  "0" * 4400 + "1"):  # (beyond 4300 digits Python's int() itself refuses the text)
+        shown = count if len(count) < 40 else "<%d digits>" % len(count)
+        cases.append(("table:number-columns-repeated=%s on a cell with text" % shown, odslib.content_xml([good], column_attribute=count)))
+        cases.append(("table:number-columns-repeated=%s on an empty cell" % shown, odslib.content_xml([empty_first], column_attribute=count)))
+        blanks = [{"rep": 1, "cells": [{"rep": 1, "paras": [[{"k": "markup", "xml": '<text:s text:c="%s"/>' % count}]]}]}]
+        cases.append(("text:s with text:c=%s" % (count if len(count) < 40 else "<%d digits>" % len(count)), odslib.content_xml([blanks])))
     for depth in (600, 1200, 5000):
         cases.append(("cell text nested in %d text:span elements" % depth, nested(depth)))
     # every single count is one a spreadsheet can have; together they describe a row, or a text, of billions of items
